@@ -1,6 +1,7 @@
 package chainsim
 
 import (
+	"reflect"
 	"bytes"
 	"fmt"
 	"strings"
@@ -345,6 +346,12 @@ func (p *ParamChurn) Act(e *Env) {
 		return
 	}
 	ctx := e.Ctx()
+	if e.Ch.Bool("churn.extreme", 200) {
+		// a value at the edge of the field's range in ONE numeric field of the module's current parameters - proposed only if the
+		// module's own validation accepts it (the property quantifies over exactly those)
+		p.extreme(e, gov)
+		return
+	}
 	switch e.Ch.Intn("churn.module", 6) {
 	case 0:
 		np := drawOracleParams(e)
@@ -378,6 +385,79 @@ func (p *ParamChurn) Act(e *Env) {
 		gov.Propose(e, "params_restake", nil, &restaketypes.MsgUpdateParams{Authority: govAuthority, Params: np})
 	}
 	e.St.Fault("gov_param_change")
+}
+
+// setExtreme puts an edge value into one int64/uint64 field of a parameter struct (chosen by the tape); false if there is none.
+func setExtreme(e *Env, ptr any) (string, bool) {
+	v := reflect.ValueOf(ptr).Elem()
+	var idx []int
+	for i := 0; i < v.NumField(); i++ {
+		k := v.Field(i).Kind()
+		if (k == reflect.Uint64 || k == reflect.Int64) && v.Field(i).CanSet() {
+			idx = append(idx, i)
+		}
+	}
+	if len(idx) == 0 {
+		return "", false
+	}
+	i := idx[e.Ch.Intn("churn.extreme.field", len(idx))]
+	f := v.Field(i)
+	edges := []uint64{1<<64 - 1, 1<<63 - 1, 1 << 63, 1 << 62, 1 << 32, 1<<31 - 1, 0, 1}
+	x := edges[e.Ch.Intn("churn.extreme.value", len(edges))]
+	if f.Kind() == reflect.Uint64 {
+		f.SetUint(x)
+	} else {
+		f.SetInt(int64(x))
+	}
+	return fmt.Sprintf("%s=%d", v.Type().Field(i).Name, x), true
+}
+
+func (p *ParamChurn) extreme(e *Env, gov *GovActor) {
+	ctx := e.Ctx()
+	var what string
+	var ok bool
+	switch e.Ch.Intn("churn.extreme.module", 5) {
+	case 0:
+		np := e.App().OracleKeeper.GetParams(ctx)
+		keep := np.OracleRewardPercentage
+		if what, ok = setExtreme(e, &np); ok && np.Validate() == nil && np.OracleRewardPercentage == keep {
+			gov.Propose(e, "params_oracle", nil, &oracletypes.MsgUpdateParams{Authority: govAuthority, Params: np})
+		} else {
+			ok = false
+		}
+	case 1:
+		np := e.App().TSSKeeper.GetParams(ctx)
+		if what, ok = setExtreme(e, &np); ok && np.Validate() == nil {
+			gov.Propose(e, "params_tss", nil, &tsstypes.MsgUpdateParams{Authority: govAuthority, Params: np})
+		} else {
+			ok = false
+		}
+	case 2:
+		np := e.App().BandtssKeeper.GetParams(ctx)
+		if what, ok = setExtreme(e, &np); ok && np.Validate() == nil {
+			gov.Propose(e, "params_bandtss", nil, &bandtsstypes.MsgUpdateParams{Authority: govAuthority, Params: np})
+		} else {
+			ok = false
+		}
+	case 3:
+		np := e.App().FeedsKeeper.GetParams(ctx)
+		if what, ok = setExtreme(e, &np); ok && np.Validate() == nil {
+			gov.Propose(e, "params_feeds", nil, &feedstypes.MsgUpdateParams{Authority: govAuthority, Params: np})
+		} else {
+			ok = false
+		}
+	case 4:
+		np := e.App().TunnelKeeper.GetParams(ctx)
+		if what, ok = setExtreme(e, &np); ok && np.Validate() == nil {
+			gov.Propose(e, "params_tunnel", nil, &tunneltypes.MsgUpdateParams{Authority: govAuthority, Params: np})
+		} else {
+			ok = false
+		}
+	}
+	if ok {
+		e.St.Fault("gov_param_change_to_an_edge_value")
+		e.Log.Add("edge-value parameter proposal: %s", what)
+	}
 }
 
 // C02 — block execution is total and deterministic. The oracle itself (no halt, replicas agree) lives in the engine; this
